@@ -300,7 +300,9 @@ func (p *FSM) Update(updates []sm.Entry) ([]sm.Entry, error) {
 			return nil, err
 		}
 
-		if len(res.Responses) > 0 {
+		// A transaction has to report its revision even if the executed branch is empty and produced no responses.
+		_, isTxn := cmd.(commandTxn)
+		if len(res.Responses) > 0 || isTxn {
 			bts, err := res.MarshalVT()
 			if err != nil {
 				return nil, err
